@@ -5,12 +5,12 @@ from . import lattice as L
 from ..world import METHOD_NAMES
 
 CLAIM = dict(
-   text="Coq theorems about the model of subclasscheck: for every type of any depth, subclasscheck(class, T) equals T's documented meaning (Spec/Denot.v: some arm / all arms / exactly / proper subclass / has method / predicate; bound for value types); reflexive; equals issubclass on classes; argument-wise covariant on generics; transitive on the fragment class <= class <= down-closed type, refuted beyond it (KF-22, KF-25). Leaf tie: the generic-alias branch of subclasscheck (origin test, same number of arguments, argument-wise tests) is regenerated from /repo's source on every run and proved to be the model's (C13_leaf_generic_branch). Correspondence: implementation vs extracted model on all ordered pairs; every (class, type) pair also against an independent Python reading of the documentation and, on a sample, through a real @ovld dispatch; all chained triples for transitivity.",
+   text="Coq theorems about the model of subclasscheck: for every type of any depth, subclasscheck(class, T) equals T's documented meaning (Spec/Denot.v: some arm / all arms / exactly / proper subclass / has method / predicate; bound for value types), and at the public entry point (fuel chosen by the model) the answer always exists and is that meaning, so a class is under a union iff under some member, under an intersection iff under all, under a value type iff under its bound (C13_entry_is_meaning, C13_union_some_member, C13_inter_all_members, C13_dependent_is_bound); reflexive; equals issubclass on classes; argument-wise covariant on generics; transitive on the fragment class <= class <= down-closed type, refuted beyond it (KF-22, KF-25). Leaf tie: the generic-alias branch of subclasscheck (origin test, same number of arguments, argument-wise tests) is regenerated from /repo's source on every run and proved to be the model's (C13_leaf_generic_branch). Correspondence: implementation vs extracted model on all ordered pairs; every (class, type) pair also against an independent Python reading of the documentation and, on a sample, through a real @ovld dispatch; all chained triples for transitivity.",
    note="Same trusted base as C12. Hypotheses on the class table (partial order, hasattr inherited) are checked per generated world. Partial: transitivity is false of the code outside the proved fragment (known findings).",
    technique="Coq proof (induction on fuel; spec function denot) + differential correspondence", design="6 C13")
 
 THEOREMS = ["C13_total", "C13_denot", "C13_refl", "C13_fuel_irrelevant", "C13_classes", "C13_generic_covariant",
-            "C13_alias_under_class", "C13_trans_partial", "C13_trans_refuted_constructed", "C13_trans_refuted_exactly", "C13_leaf_generic_branch"]
+            "C13_alias_under_class", "C13_entry_is_meaning", "C13_union_some_member", "C13_inter_all_members", "C13_dependent_is_bound", "C13_trans_partial", "C13_trans_refuted_constructed", "C13_trans_refuted_exactly", "C13_leaf_generic_branch"]
 ASSUMPTIONS = ["hypotheses of the theorems (issubclass reflexive/transitive/antisymmetric, hasattr inherited along issubclass) are checked per generated world; worlds violating them (virtual subclasses registered on an ABC that defines a method) are compared against the model only"]
 
 
